@@ -31,16 +31,6 @@ def handle (op : String) (j : Json) : Option (R Json) :=
           let s ← getFloat j "extent"; let a ← getFloat j "angle"
           pure (okJ [("out", realArrToJson (Lentil.smear CF img s a ps os))])
       | _ => throw "bad kind"
-  | "c19.kernel" => some do
-      let sh ← getInts j "shape"
-      let kind ← getStr j "kind"
-      let ps ← getFloat j "pixelscale"; let os ← getFloat j "oversample"
-      match kind with
-      | "pixel" => pure (okJ [("k", realArrToJson (pixelKernel sh[0]! sh[1]! os))])
-      | "jitter" => pure (okJ [("k", realArrToJson (jitterKernel sh[0]! sh[1]! (← getFloat j "extent") ps os))])
-      | "smear" =>
-          pure (okJ [("k", realArrToJson (smearKernel sh[0]! sh[1]! (← getFloat j "extent") (← getFloat j "angle") ps os))])
-      | _ => throw "bad kind"
   | _ => none
 
 end Ops.C19
